@@ -57,6 +57,11 @@ func runC16(ctx *Ctx, c c16Case) {
 		ctx.Res.Count("unplugged")
 		if rr.Exit == 0 || rr.Returned {
 			ctx.Res.Violate(Violation{What: fmt.Sprintf("port %s is unconnected but the workflow was not refused (exit %d, returned %v)", c.Unplug, rr.Exit, rr.Returned), Class: "c16.not-refused", Witness: c})
+		} else if out := rr.Stderr + rr.Stdout; rr.Exit == -2 || rr.Exit == 2 ||
+			!(strings.Contains(out, "not ready to run") || strings.Contains(out, "is not connected") || strings.Contains(out, "ot everything connected")) {
+			// a refusal is the library saying so and exiting with status 1 — not a hang, a runtime deadlock or
+			// some later failure of a process that was started anyway
+			ctx.Res.Violate(Violation{What: fmt.Sprintf("port %s is unconnected; the workflow was not refused at start-up but ended with exit %d: %s", c.Unplug, rr.Exit, firstLine(rr.Stderr)), Class: "c16.not-refused", Witness: c})
 		}
 		if len(started) > 0 {
 			class := "c16.ran-before-refusal"
